@@ -137,6 +137,10 @@ def r2_seed_only(ctx):
     stores = [x for x in ast.walk(fn) if isinstance(x, (ast.Assign, ast.AugAssign)) and any(is_self_attr(t, "_seed") for t in (x.targets if isinstance(x, ast.Assign) else [x.target]))]
     ctx.ob("C09.R2", EF, "Shuffle.filter", stores[0] if stores else fn, "environments.Shuffle never re-binds its own seed while reading (overlapping or abandoned reads cannot disturb later ones)",
            not stores, stmt="Shuffle.filter leaves self._seed alone")
+    # "fully determined by the seed": the generator itself consults the clock only for seed None and never tests a seed for truthiness
+    from . import c05
+    c05.r2_time_guard(ctx, rule="C09.R2")
+    ctx.rules["C09.R2"] = "Shuffle/Reservoir/Riffle draw only from CobaRandom(self._seed) constructed in the call; CobaRandom consults the clock only for seed None"
     gens = [c for c in walk_shallow(fn) if isinstance(c, ast.Call) and call_name(c) == "CobaRandom"]
     for c in gens:
         srcs = [c.args[0]] if c.args and not isinstance(c.args[0], ast.Name) else (assigned_value(fn, c.args[0].id) if c.args else [])
@@ -541,6 +545,7 @@ def r7_sort_keys(ctx):
 
 
 CONTROLS = [
+    ("falsy seeds fall back to the clock", "coba/random.py", M.replace_expr("CobaRandom.__init__", "seed is None", "not seed"), "C09.R2"),
     ("batching drops a short last batch", EF, M.replace_expr("Batch._batched", "batch", "len(batch) == n", nth=1), "C09.R11"),
     ("strict Take accepts a short prefix", PF, M.replace_expr("Take.filter", "len(out) < self._count", "len(out) < self._count - 1"), "C09.R11"),
     ("Slice ignores its step", PF, M.replace_expr("Slice.filter", "islice(items, self._start, self._stop, self._step)", "islice(items, self._start, self._stop)"), "C09.R11"),
